@@ -18,6 +18,7 @@ package c20
 import (
 	"fmt"
 	"os"
+	"regexp"
 	"runtime"
 	"sort"
 	"strings"
@@ -29,13 +30,20 @@ import (
 )
 
 func init() {
-	fams := []engine.Family{}
+	if v := os.Getenv(soloEnv); v != "" {
+		soloChild(v) // reference child process: prints one solo log and exits
+	}
+	// the cheap schedule-independent oracles run first, so that a time budget
+	// that runs out on a slow machine never cuts them
+	fams := []engine.Family{
+		{Name: "selfcheck", Run: runSelfCheck, Solo: true},
+		{Name: "pkgstate", Run: runPkgState},
+		{Name: "sharing", Run: runSharing},
+	}
 	for _, sc := range Scenarios {
 		sc := sc
 		fams = append(fams, engine.Family{Name: sc, Run: func(r *engine.Run) { runScenario(r, sc, false) }})
 	}
-	fams = append(fams, engine.Family{Name: "sharing", Run: runSharing})
-	fams = append(fams, engine.Family{Name: "selfcheck", Run: runSelfCheck, Solo: true})
 	// thorough tier: the base families above run exactly the quick enumeration
 	// (so quick is a subset of thorough by construction); the "+" families then
 	// extend every case to its full preemption bound and count only the
@@ -66,7 +74,9 @@ func init() {
 			"race pass: every process start runs its first round cold (no otto code executed before the goroutines start) so that lazily initialised package-level state is first touched concurrently; happens-before edges that library code adds on its own (sync.Pool in fmt/regexp, the math/rand lock) can order two conflicting accesses and hide them from the detector in a given run",
 			"mutable package-level state that is neither reachable from a runtime by reflection nor touched by any of the harness bodies is outside the bound",
 			"Go func values (closures) are opaque to reflection: sharing through captured variables is covered only behaviourally (solo-log oracle, race detector)",
-			"solo reference = the same thread program run alone on a fresh instance of the scenario with privately compiled scripts; computed twice and required to be identical",
+			"solo reference = the same thread program run alone, on a fresh instance of the scenario with privately compiled scripts, in a FRESH PROCESS of this binary (nothing else of otto ran in it); the same thread run alone in the worker process (after other runtimes ran there) must give the same log (key <case>@solo), which also establishes that the bodies are deterministic",
+			"pkgstate is a syntactic inventory (go/parser, no type checker) of the package-level variables of the source tree the binary was built from: a write through an alias or inside a method of the variable's own type is not seen",
+			"bridged Go values: the Go data behind a slice/map/pointer set on a template is the embedder's and common to all copies by construction; the probes only read it (and set the slice LENGTH, which is otto's own state); closures of reflected Go functions are opaque to the heap walk, their results are stored and walked",
 			"misuse (two goroutines on ONE runtime, registry.Enable/Disable concurrently with New) is outside the statement",
 		},
 		CrashIsViolation: true,
@@ -232,12 +242,17 @@ type soloCache struct {
 	m map[string]string
 }
 
+// get returns the reference of a case: every thread run alone in a fresh
+// process. The same threads are then run alone in THIS process (which has a
+// history: other runtimes ran in it before); a difference means that the
+// result of a script depends on what other runtimes did earlier - shared
+// package-level state - and is filed as a violation of the case (key @solo).
 func (sc *soloCache) get(r *engine.Run, sp Spec) (string, bool) {
 	name := sp.Name()
 	if v, ok := sc.m[name]; ok {
 		return v, v != ""
 	}
-	logs, err := Solo(sp)
+	logs, err := IsolatedSolo(sp)
 	if err != nil {
 		r.HarnessError(err.Error())
 		sc.m[name] = ""
@@ -245,6 +260,17 @@ func (sc *soloCache) get(r *engine.Run, sp Spec) (string, bool) {
 	}
 	v := RenderLogs(logs)
 	sc.m[name] = v
+	if here := RenderLogs(InProcessSolo(sp)); here != v {
+		again := RenderLogs(InProcessSolo(sp))
+		r.Mismatch(engine.Mismatch{
+			Key:      name[len(sp.Scenario)+1:] + "@solo",
+			Input:    name + ": every thread run ALONE, one after the other, in a process in which other runtimes have run before",
+			Expected: v,
+			Observed: here,
+			Note:     "expected = the same threads run alone in fresh processes; a second in-process computation gave: " + again,
+			Aux:      bridgeAux(v, here, ""),
+		})
+	}
 	return v, true
 }
 
@@ -455,7 +481,11 @@ func exploreCase(r *engine.Run, p plan, base int, deadline time.Time, solo *solo
 				r.Sample(fmt.Sprintf("%s schedule %s (%d preemptions): %s => logs equal solo: %v", name, sparse(res.choices), res.preempt, res.trace, res.logs == want))
 			}
 			if res.logs != want || res.problems != "" {
-				violations++
+				// mismatches of the open known finding (bridged Go values) are
+				// filed but do not stop the exploration of the case
+				if bridgeAux(want, res.logs, res.problems)["only_bridged_values"] != "1" || !hasTemplate(sp.Scenario) {
+					violations++
+				}
 				report(r, sp, caseName, res, want)
 			}
 		}
@@ -495,7 +525,8 @@ func exploreCase(r *engine.Run, p plan, base int, deadline time.Time, solo *solo
 // files the mismatch only if all three executions observed the same thing.
 func report(r *engine.Run, sp Spec, caseName string, res *execResult, want string) {
 	full := res.choices
-	for k := 0; k < 2; k++ {
+	aux := bridgeAux(want, res.logs, res.problems)
+	for k := 0; k < 2 && aux["only_bridged_values"] != "1"; k++ {
 		again := execute(sp, full, nil)
 		if again.err != "" || again.observed() != res.observed() || sparse(again.choices) != sparse(full) {
 			r.HarnessError(fmt.Sprintf("%s@%s: failing schedule did not replay deterministically (replay %d): first %q, replay %q %s",
@@ -509,6 +540,7 @@ func report(r *engine.Run, sp Spec, caseName string, res *execResult, want strin
 		Expected: want,
 		Observed: res.observed(),
 		Note:     "replayed twice with identical observations; expected = solo logs (each thread alone), shared Script/Program unmodified",
+		Aux:      aux,
 	})
 }
 
@@ -520,6 +552,13 @@ func replayKey(r *engine.Run, scenario string, solo *soloCache) {
 	sp, err := ParseSpec(scenario + "/" + r.ReplayKey[:i])
 	if err != nil {
 		r.HarnessError(err.Error())
+		return
+	}
+	if r.ReplayKey[i+1:] == "solo" {
+		// history-dependence witness: run the threads alone twice in this process
+		InProcessSolo(sp)
+		solo.get(r, sp)
+		r.Eval(true)
 		return
 	}
 	prefix, err := parseSparse(r.ReplayKey[i+1:])
@@ -696,6 +735,12 @@ func sharingCase(r *engine.Run, sp Spec, key string) {
 		r.Sample(fmt.Sprintf("%s: %d pairwise intersections; shared (all allow-listed): %s", key, walks, strings.Join(keys, ", ")))
 	}
 	if len(report) > 0 {
+		aux := map[string]string{"all_via_bridged_values": "1"}
+		for _, l := range report {
+			if !viaBridgedValue(l) {
+				aux["all_via_bridged_values"] = "0"
+			}
+		}
 		sort.Strings(report)
 		if len(report) > 8 {
 			report = append(report[:8], fmt.Sprintf("... %d more", len(report)-8))
@@ -705,6 +750,7 @@ func sharingCase(r *engine.Run, sp Spec, key string) {
 			Input:    key + ": heap graphs of the runtimes (reflective walk), schedule " + sparse(prefix),
 			Expected: "intersection consists of allow-listed immutable objects only",
 			Observed: strings.Join(report, " ; "),
+			Aux:      aux,
 		})
 	}
 }
@@ -781,4 +827,64 @@ func runSelfCheck(r *engine.Run) {
 		r.HarnessError("region walker does not find a shared mutable object")
 	}
 	r.Eval(true)
+}
+
+// ---------------------------------------------------------------------------
+// known finding: bridged Go values are not re-homed by Copy()
+// ---------------------------------------------------------------------------
+
+var bridgeSegment = regexp.MustCompile(`bridge.*?/bridge`)
+
+// maskBridge blanks the log items between the "bridge" ... "/bridge" markers
+// (the observations of bridged Go values made by the Probe and by the
+// template's own log).
+func maskBridge(s string) string { return bridgeSegment.ReplaceAllString(s, "bridge#/bridge") }
+
+// bridgeAux classifies a log mismatch for the known-finding signature:
+// only_bridged_values=1 iff expected and observed are equal once the
+// observations of bridged Go values are blanked and no other problem (modified
+// Script, consumed interrupt) was recorded.
+func bridgeAux(expected, observed, problems string) map[string]string {
+	v := "0"
+	if problems == "" && expected != observed && maskBridge(expected) == maskBridge(observed) {
+		v = "1"
+	}
+	return map[string]string{"only_bridged_values": v}
+}
+
+// viaBridgedValue: a shared heap region is attributable to the bridged values
+// iff every copy's path reaches it through the result of a reflected Go function stored
+// by the Probe (T.made) or it is the *goSliceObject wrapper of the bridged slice.
+func viaBridgedValue(line string) bool {
+	i := strings.Index(line, ": ")
+	if i < 0 {
+		return false
+	}
+	sides := strings.Split(line[i+2:], "  <->  ")
+	if len(sides) != 2 {
+		return false
+	}
+	for _, side := range sides {
+		if strings.Contains(side, " at template") {
+			continue // the template's own path to its own heap
+		}
+		ok := strings.Contains(side, ".property[made]") ||
+			(strings.HasPrefix(side, "*otto.goSliceObject at ") && strings.HasSuffix(side, ".property[gslice].value.value*.value"))
+		if !ok {
+			return false
+		}
+	}
+	return true
+}
+
+func init() {
+	engine.RegisterSignature("c20-bridged-go-values-keep-template-runtime", func(m *engine.Mismatch) bool {
+		switch strings.TrimSuffix(m.Family, deepSuffix) {
+		case ScCopyBefore, ScCopyDuring:
+			return m.Aux["only_bridged_values"] == "1"
+		case "sharing":
+			return m.Aux["all_via_bridged_values"] == "1" && (strings.HasPrefix(m.Key, ScCopyBefore+"/") || strings.HasPrefix(m.Key, ScCopyDuring+"/") || strings.HasPrefix(m.Key, ScCopyOnly+"/"))
+		}
+		return false
+	})
 }
